@@ -18,12 +18,12 @@ COQ_CHECK = 'Balancer.check_case'
 COQ_EXPLAIN = 'Balancer.explain_case'
 SHARD = 40
 WORKERS = 6
-RULE = ('seeded random histories over 1-12 members (+ up to 3 spare endpoints), 20-200 relative operations from phase profiles '
+RULE = ('in 65% of the histories the real scales.sink.ClientTimeoutSink sits in front of the balancer (requests carry a deadline; scales.sink.GLOBAL_TIMER_QUEUE is a stub whose recorded action is run by a timeout completion, i.e. _TimeoutHelper itself completes the call); 15% use a provider with endpoint_name; seeded random histories over 1-12 members (+ up to 3 spare endpoints), 20-200 relative operations from phase profiles '
         'load-up / drain / churn (join+leave heavy) / flap / steady; completions by reply, error, time-out, fault (all requests '
         'of a channel), direct context call; second completions through a drained stack and through the context; removals of '
         'idle, loaded and marked-down members and re-joins of the same endpoint; 15% on ApertureBalancerSink with all members '
         'active; non-trivial = at least 3 requests dispatched; distinct by canonical JSON of (case, observation)')
-TRUSTED = ['mock channel sinks (Close() recorded) / server-set provider / scripted random of harness/c03_balancer_driver.py',
+TRUSTED = ['stub timer queue of the driver (records the action scheduled by ClientTimeoutSink, returns a cancel closure)', 'mock channel sinks (Close() recorded) / server-set provider / scripted random of harness/c03_balancer_driver.py',
            'the real ClientMessageSinkStack carries every completion to the balancer (sink.py)',
            'reference counters and close-timing oracle of the monitor (analyse) in the same file']
 ASSUMPTIONS = ['the model sees a completion as "the context pushed by the balancer is invoked"; that every completion path (reply, '
